@@ -439,6 +439,7 @@ func suite(tier string) []qx.SuiteItem {
 		{name: "one-member-readmessage", readMsg: true, committed: map[int]int64{0: 1}, faults: map[protocol.ApiKey][]string{protocol.OffsetCommit: {"err:27", "drop"}, protocol.OffsetFetch: {"err:15", "drop"}}, bound: b},
 		{name: "second-member-joins-and-leaves", second: true, faults: map[protocol.ApiKey][]string{protocol.OffsetCommit: {"err:27"}}, bound: b},
 		{name: "close-vs-sync-commit", closeRace: true, bound: b},
+		{name: "resume-with-uncommitted-first-partition", committed: map[int]int64{1: 2}, faults: map[protocol.ApiKey][]string{protocol.Heartbeat: {"err:27"}, protocol.OffsetFetch: {"drop"}}, bound: b},
 		{name: "eviction", evict: true, faults: map[protocol.ApiKey][]string{protocol.Heartbeat: {"err:25"}, protocol.JoinGroup: {"err:25"}}, bound: b},
 	}
 	var items []qx.SuiteItem
